@@ -144,8 +144,8 @@ def run(tier, seed):
                 for z in sizes + [n + 1, n + 7]:
                     ops.append("enc s=0 syn=%s buf=%d" % (s, z))
                     checks.append(("buf", z))
-                if not valid and "emptyint" not in desc:
-                    # (an INTEGER with zero content octets has no defined value: only safety is demanded for it)
+                if not valid and desc == "constraint-violating":
+                    # walker-damaged structures have no defined abstract value: only safety and rc/errno discipline are demanded
                     ops += ["setreg r=1 in=%s" % out, "dec s=1 t=%s syn=%s inreg=1" % (tname, DEC_OF[s]), "enc s=1 syn=%s" % s, "free s=1"]
                     checks += [("setreg", 0), ("backdec", 0), ("backenc", 0), ("free", 0)]
             else:
